@@ -42,7 +42,7 @@ PURE_BUILTINS = {
 PURE_LIB = {
     "math.isfinite", "math.isnan", "math.isinf", "math.floor", "math.ceil", "math.trunc", "datetime.timedelta",
     "typing.cast", "inspect.isawaitable", "inspect.signature", "asyncio.iscoroutinefunction",
-    "collections.defaultdict", "collections.deque", "threading.Lock",
+    "collections.defaultdict", "collections.deque", "threading.Lock", "itertools.repeat",
 }
 PURE_METHODS = {
     "get", "items", "keys", "values", "lower", "upper", "strip", "startswith", "endswith", "search",
@@ -639,6 +639,8 @@ class PathEngine:
                 return ("global", base[1] + "." + e.attr)
             if base[0] == "enum" and e.attr in ("value", "name"):
                 return base if e.attr == "value" else ("attr", base, "name")
+            if ("attr", base, e.attr) in store:
+                return store[("attr", base, e.attr)]  # a field written on this path: the value written, not the one it was built with
             rf = self._record_field(base, e.attr, cfg)
             if rf is not None:
                 return rf
@@ -706,6 +708,9 @@ class PathEngine:
         if isinstance(e, ast.BinOp):
             a = self.sym(e.left, env, store, cfg)
             b = self.sym(e.right, env, store, cfg)
+            if isinstance(e.op, ast.BitOr) and isinstance(a, tuple) and a and a[0] == "dict" and isinstance(b, tuple) and b and b[0] in ("dict", "local", "param", "fresh", "attr"):
+                # `{...} | tags` builds the dict `{..., **tags}` builds (PEP 584: a new dict, right operand wins)
+                return ("dict", a[1] + ((("const", "**"), b),))
             return ("op", BIN[type(e.op)], a, b)
         if isinstance(e, ast.IfExp):
             tk = _taken(e.test, env)
@@ -1354,7 +1359,8 @@ class PathEngine:
                 if isinstance(f, ast.Attribute) and f.attr in MUTATORS and all(t.kind in ("lib", "unknown") for t in targets):
                     store2 = {loc: (("havoc", self._nid(node), loc) if contains(loc, recv) else v) for loc, v in store.items()}
                 else:
-                    store2 = {loc: ("havoc", self._nid(node), loc) for loc in store}
+                    private = _unescaped_fresh(store, items2, [recv, *args, *kwargs.values()])
+                    store2 = {loc: (v if loc in private else ("havoc", self._nid(node), loc)) for loc, v in store.items()}
         go(env=env2, store=store2, items=items2)
 
 
@@ -1433,7 +1439,8 @@ def _inline_impl(self, cfg, node, tg, call, recv, args, kwargs, env, store, item
             if it[0] == "ev" and it[1].kind == "store":
                 st2[it[1].loc] = it[1].value
             elif it[0] == "ev" and it[1].kind == "call" and not it[1].pure and st2:
-                st2 = {loc: ("havoc", it[1].node.id, loc) for loc in st2}
+                private = _unescaped_fresh(st2, items2 + list(sp.items[: sp.items.index(it)]), [it[1].recv, *it[1].args, *it[1].kwargs.values()])
+                st2 = {loc: (v if loc in private else ("havoc", it[1].node.id, loc)) for loc, v in st2.items()}
         items3 = items2 + [x for x in sp.items if not (x[0] == "ev" and x[1].kind in ("return", "lstore"))]
         if sp.exit[0] == "return":
             env2 = dict(env)
@@ -1535,6 +1542,35 @@ def _taken(test: ast.expr, env: dict) -> bool | None:
         r = _taken(test.operand, env)
         return None if r is None else (not r)
     return env.get(("$t", id(test)))
+
+
+def _unescaped_fresh(store: dict, items: list, call_terms: list) -> set:
+    """heap locations `fresh.f` of objects constructed on this path (`new X(...)` terms) that no callee can reach: the
+    object is not an argument / receiver of this call, was never an argument of an earlier impure call and was never
+    stored into another object - an impure call cannot have written them"""
+    out: set = set()
+    bases = {loc[1] for loc in store if isinstance(loc, tuple) and len(loc) == 3 and loc[0] == "attr" and isinstance(loc[1], tuple) and loc[1] and loc[1][0] == "pure" and isinstance(loc[1][1], str) and loc[1][1].startswith("new ")}
+    for b in bases:
+        if any(t is not None and contains(t, b) for t in call_terms):
+            continue
+        escaped = False
+        for it in items:
+            if it[0] != "ev":
+                continue
+            e = it[1]
+            if e.kind in ("call", "inlined", "await") and not getattr(e, "pure", False):
+                if any(t is not None and contains(t, b) for t in [e.recv, *e.args, *e.kwargs.values()]):
+                    escaped = True
+                    break
+            elif e.kind == "store" and e.value is not None and contains(e.value, b):
+                escaped = True
+                break
+            elif e.kind == "return" and e.value is not None and contains(e.value, b):
+                escaped = True
+                break
+        if not escaped:
+            out |= {loc for loc in store if isinstance(loc, tuple) and len(loc) == 3 and loc[0] == "attr" and loc[1] == b}
+    return out
 
 
 def contains(t: Any, sub: Any) -> bool:
